@@ -493,7 +493,7 @@ int main(int argc, char **argv) {
         sdk_out(devconn->srpc ? "DECISION none" : "DECISION reconnect");
       } else if (!strcmp(op, "pingreply")) { /* the server answers a ping that reached the wire */
         sdk_sent_hook = sent_hook;
-        if (ping_pending && devconn->srpc) {
+        if ((ping_pending || ops_ntok == 2) && devconn->srpc) { /* "pingreply force": an unsolicited server frame */
           ping_pending = 0;
           unsigned char f[64]; unsigned rr = 7777, call = 50, ds = 16; size_t k = 0;
           memcpy(f, "SUPLA", 5); k = 5; f[k++] = SUPLA_PROTO_VERSION;
